@@ -542,6 +542,8 @@ class Flwdir(object):
             strord = streams.stream_order(
                 self.idxs_ds, self.idxs_seq, self.idxs_us_main, mask=mask, mv=self._mv
             )
+        else:
+            raise ValueError(f'Unknown stream order type: {type}, select from ["strahler", "classic"].')
         return strord.reshape(self.shape)
 
     def upstream_area(self):
